@@ -623,6 +623,13 @@ def r5c(repo, run):
                 rep_ = p.env.get('done_something')
                 if rep_ is not None and rep_.const is not True:
                     bad.add('a redirected name load leaves done_something = %s: the caller is told nothing was patched and keeps the original code' % rep_.text)
+    # every half of a code unit written anywhere in the patcher (also when jumps are re-targeted) is one byte
+    for g in _family(repo, fi):
+        for c in ast.walk(g.node):
+            if isinstance(c, ast.Call) and isinstance(c.func, ast.Attribute) and c.func.attr == 'to_bytes' and (c.args or c.keywords):
+                ln = c.args[0] if c.args else next((k.value for k in c.keywords if k.arg == 'length'), None)
+                if isinstance(ln, ast.Constant) and (ln.value != 1 or type(ln.value) is not int):
+                    bad.add('an operand / opcode is encoded with to_bytes(%s) in %s: every half of a code unit is exactly one byte' % (', '.join(norm(a) for a in c.args), g.qualname.split('.')[-1]))
     if rows < 4 or redirects < 2:
         raise AnalysisError('_patch_access_to_globals: instruction loop not interpreted (%d iterations paths, %d redirecting)' % (rows, redirects))
     if bad:
@@ -869,6 +876,7 @@ def check(repo, run, tier):
 
 def mutants(repo):
     return [
+        Mutant('jump-operand-to-bytes-swapped', lambda r: in_func(r, 'EvalNode._patch_access_to_globals', "new_loc_rel.to_bytes(1, 'little')", "new_loc_rel.to_bytes('little', 1)"), ['C12.R5']),
         Mutant('fstr-apostrophes-not-escaped', lambda r: in_func(r, 'yaml._fstr_constructor', """value.replace(r"'", r"\\'")""", """value.replace("'", "\\'")"""), ['C12.R4']),
         Mutant('namespace-module-looked-up-when-absent', lambda r: in_func(r, 'EvalNode.ayns.on_evaluate_impl', "if self.persistent_namespace and eval_module_name in sys.modules:", "if self.persistent_namespace and eval_module_name not in sys.modules:"), ['C12.R1']),
         Mutant('nested-change-flag-overwritten', lambda r: in_func(r, 'EvalNode._patch_access_to_globals', "                if done_something_sub:\n                    done_something = True\n", "                done_something = done_something_sub\n"), ['C12.R6']),
